@@ -11,6 +11,7 @@ package main
 import (
 	"fmt"
 	"math/big"
+	"time"
 
 	"verifharness/internal/h"
 
@@ -62,6 +63,31 @@ var c09Mutations = []c09Mut{
 		m.WorkObjectHeader().SetShaDiffAndCount(types.NewPowShareDiffAndCount(big.NewInt(1), big.NewInt(1), big.NewInt(0)))
 	}},
 	{"kawpow-difficulty-present-before-fork", func(m *types.WorkObject) { m.WorkObjectHeader().SetKawpowDifficulty(big.NewInt(5)) }},
+	{"time-far-future", func(m *types.WorkObject) { m.WorkObjectHeader().SetTime(uint64(time.Now().Unix()) + 16 + 60) }},
+	{"time-just-past-allowed", func(m *types.WorkObject) { m.WorkObjectHeader().SetTime(uint64(time.Now().Unix()) + 15 + 3) }},
+	{"time-top-bit-set", func(m *types.WorkObject) { m.WorkObjectHeader().SetTime(uint64(1)<<63 + uint64(time.Now().Unix())) }},
+	{"time-max-uint64", func(m *types.WorkObject) { m.WorkObjectHeader().SetTime(^uint64(0) - uint64(3)) }},
+	{"extra-too-long", func(m *types.WorkObject) { m.Header().SetExtra(make([]byte, params.MaximumExtraDataSize+1)) }},
+	{"stateused-over-limit", func(m *types.WorkObject) { m.Header().SetStateUsed(m.StateLimit() + 1) }},
+	{"coinbase-other-zone", func(m *types.WorkObject) {
+		b := m.PrimaryCoinbase().Bytes()
+		b[0] = 0x01
+		m.WorkObjectHeader().SetPrimaryCoinbase(common.BytesToAddress(b, common.Location{0, 0})) // as the wire decoder builds it: with the block's location
+	}},
+	{"lockup-contract-other-zone", func(m *types.WorkObject) {
+		d := append([]byte{0}, make([]byte, 20)...)
+		d[1] = 0x01
+		d[20] = 7
+		m.WorkObjectHeader().SetData(d)
+	}},
+	{"beneficiary-other-zone", func(m *types.WorkObject) {
+		d := append([]byte{0}, make([]byte, 40)...)
+		d[20] = 7
+		d[21] = 0x01
+		d[40] = 9
+		m.WorkObjectHeader().SetData(d)
+	}},
+	{"region-state-root-set", nil}, // not a zone rule: skipped (kept so that the table lists what is out of reach here)
 }
 
 func runC09(seed uint64, n int, outDir string, replay string) {
@@ -214,6 +240,9 @@ func runC09(seed uint64, n int, outDir string, replay string) {
 					for k := 0; k < 4; k++ {
 						mu := c09Mutations[(perm+k)%len(c09Mutations)]
 						m := types.CopyWorkObject(blk)
+						if mu.apply == nil && mu.kind != "time-before-parent" {
+							continue
+						}
 						if mu.kind == "time-before-parent" {
 							if parent.Time() == 0 {
 								continue
